@@ -438,7 +438,7 @@ impl ImplWhereClause<'_, '_> {
                 );
 
                 if self.contains_async.0 {
-                    push_tokens!(stream, self.plus_send(), self.plus_sync());
+                    push_tokens!(stream, self.plus_sync());
                 }
                 push_tokens!(stream, self.plus_static());
             }
@@ -453,7 +453,7 @@ impl ImplWhereClause<'_, '_> {
                 );
 
                 if self.contains_async.0 {
-                    push_tokens!(stream, self.plus_send(), self.plus_sync());
+                    push_tokens!(stream, self.plus_sync());
                 }
                 push_tokens!(stream, self.plus_static());
             }
@@ -508,13 +508,6 @@ impl ImplWhereClause<'_, '_> {
         TokenPair(
             syn::token::Plus(self.span),
             syn::Lifetime::new("'static", self.span),
-        )
-    }
-
-    fn plus_send(&self) -> TokenPair<impl ToTokens, impl ToTokens> {
-        TokenPair(
-            syn::token::Plus(self.span),
-            syn::Ident::new("Send", self.span),
         )
     }
 
